@@ -9,7 +9,10 @@ Space (every member is visited, nothing sampled)
             of the terminals; thorough: the whole family, plus E occurring in its own alternatives behind a
             terminal, plus "two rich symbols + one helper".
   Grammars the *reference* left-recursion test rejects are outside the quantifier and only counted.
-  x both smart_factorization settings x all token strings of length <= L (members and non-members).
+  x insertion order of the productions dict (start symbol first / start symbol last; sized spaces and the
+    two-rich family) x both smart_factorization settings x all token strings of length <= L (members and
+    non-members).  One case is a short history on one parser object: construct, is_ambiguous(), all
+    parses, is_ambiguous() again.
 
 Oracle: independent nullable / FIRST / FOLLOW / predict sets (models.grammar) decide "LL(1) as written";
 the reference language Lang_<=L(E) is a bounded fixpoint over sets of token tuples.
@@ -54,18 +57,21 @@ REQUIRED_FEATURES = ["ref:ll1-as-written", "ref:not-ll1-as-written", "impl:table
                      "impl:table-with-conflicts", "obliged:ll1:member", "obliged:ll1:non-member",
                      "obliged:conflict-free-only:member", "obliged:conflict-free-only:non-member",
                      "grammar:nullable", "grammar:nullable-symbol-after-non-terminal",
-                     "grammar:epsilon-alternative-before-token-alternative", "family:follow"]
+                     "grammar:epsilon-alternative-before-token-alternative", "family:follow",
+                     "order:start-symbol-last", "grammar:follow-dependency-chain"]
 
 _SPACES = {
     # (kind, params..., input length, shards)
-    "quick": [("sized", "EA", "ab", 2, 2, 5, 4, 16), ("sized", "EAB", "a", 2, 3, 5, 4, 24),
+    "quick": [("sized", "EA", "ab", 2, 2, 5, 4, 16), ("sized", "EAB", "a", 2, 3, 6, 4, 48),
               ("follow", "xyb", 3, True, True, False, 3, 160, False)],
     "thorough": [("sized", "EA", "ab", 3, 3, 6, 5, 32), ("sized", "EA", "ab", 3, 3, 7, 4, 160),
                  ("sized", "EAB", "a", 2, 3, 6, 5, 64), ("sized", "EAB", "ab", 2, 2, 5, 4, 32),
                  ("follow", "xyb", 3, False, True, False, 4, 400, True),
                  ("follow", "xy", 3, False, False, True, 4, 120, True),
-                 ("follow2", "xy", 0, 0, 0, 0, 4, 200)],
+                 ("follow2", "xy", 0, 0, 0, 0, 4, 64)],
 }
+# spaces explored in both insertion orders of the productions dict
+_BOTH_ORDERS = ("sized", "follow2")
 
 
 def _space_gen(sp, k, K):
@@ -90,7 +96,7 @@ def bounds(tier):
     for sp in _SPACES[tier]:
         if sp[0] == "sized":
             _, nts, key, ma, ml, ms, L, _ = sp
-            out.append({"space": "sized", "non_terminals": list(nts), "terminals": list(key),
+            out.append({"space": "sized", "non_terminals": list(nts), "terminals": list(key), "dict_orders": 2,
                         "max_alternatives": ma, "max_alt_len": ml, "max_total_size": ms,
                         "grammars": G.count_sized(len(nts), len(key), ma, ml, ms), "input_len_max": L})
         elif sp[0] == "follow":
@@ -102,7 +108,7 @@ def bounds(tier):
                         "rich_symbol_in_own_alternatives_behind_terminal": self_ref,
                         "grammars": "counted at run time (feature family:follow)", "input_len_max": L})
         else:
-            out.append({"space": "two-rich-one-helper family", "terminals": list(sp[1]),
+            out.append({"space": "two-rich-one-helper family", "terminals": list(sp[1]), "dict_orders": 2,
                         "grammars": "counted at run time (feature family:follow2)", "input_len_max": sp[6]})
     return {"spaces": out, "modes": ["smart_factorization=True", "smart_factorization=False"],
             "start_symbol": "E"}
@@ -123,6 +129,12 @@ def _shape_feats(pm):
             for i in range(1, len(a)):
                 if a[i] in nul and a[i - 1] in pm:
                     feats.append("grammar:nullable-symbol-after-non-terminal")
+        # chain of FOLLOW dependencies: x ends with a non-terminal y whose alternative ends with a
+        # non-terminal again
+        for a in alts:
+            if a and a[-1] in pm and a[-1] != x and any(b and b[-1] in pm and b[-1] not in (x, a[-1])
+                                                       for b in pm[a[-1]]):
+                feats.append("grammar:follow-dependency-chain")
         seen_eps = False
         for a in alts:
             if not a:
@@ -161,7 +173,7 @@ def check_grammar(cfg, start, prods, L, inputs, acc, modes=(True, False)):
     done = {}          # smart -> (machine state, verdict list) of an obliged mode already explored
 
     def case(smart, toks=None):
-        c = G.to_case(cfg, start, prods, smart=smart)
+        c = G.to_case(cfg, start, prods, smart=smart, L=L)
         if toks is not None:
             c["input"] = [list(t) for t in toks]
         return c
@@ -258,6 +270,17 @@ def check_grammar(cfg, start, prods, L, inputs, acc, modes=(True, False)):
                                       f"{cfg.text(toks)!r} is not a sentence of {G.show(prods)} "
                                       f"(smart_factorization={smart}): parse raised {root} instead of "
                                       f"ParsingError", r, "ParsingError")
+            # ---- the report must not depend on what the parser object has parsed meanwhile
+            if ll1 and amb is False:
+                try:
+                    amb2 = bool(p.is_ambiguous())
+                except Exception as e:  # noqa
+                    amb2 = repr(e)
+                if amb2 is not False:
+                    acc.violation("C02:ll1-grammar-reported-ambiguous-after-parsing", case(smart),
+                                  f"is_ambiguous() of the LL(1) grammar {G.show(prods)} "
+                                  f"(smart_factorization={smart}) was False after construction and is "
+                                  f"{amb2} after parsing all token strings of length <= {L}", amb2, False)
     for toks, by_mode in shapes.items():
         if len(by_mode) == 2 and by_mode[True] != by_mode[False]:
             acc.violation("C02:modes-return-different-trees", case(True, toks),
@@ -273,24 +296,29 @@ def run_shard(shard, tier, seed, acc):
     cfg, L, gen = _space_gen(sp, k, K)
     inputs = G.all_inputs(cfg, L)
     fam = "family:" + sp[0]
+    orders = (False, True) if sp[0] in _BOTH_ORDERS else (False,)
     n = 0
-    for prods in gen:
-        feats, nt, out, n_cmp = check_grammar(cfg, "E", prods, L, inputs, acc)
-        acc.case(nontrivial=nt, features=feats + [fam], outcome=out, traces=n_cmp)
-        n += 1
-        if nt and n % 101 == 0:
-            acc.sample(G.show(prods))
-        if n % 256 == 0 and acc.expired():
+    for prods0 in gen:
+        for rev in orders:
+            prods = tuple(reversed(prods0)) if rev else prods0
+            feats, nt, out, n_cmp = check_grammar(cfg, "E", prods, L, inputs, acc)
+            if rev:
+                feats.append("order:start-symbol-last")
+            acc.case(nontrivial=nt, features=feats + [fam], outcome=out, traces=n_cmp)
+            n += 1
+            if nt and n % 101 == 0:
+                acc.sample(G.show(prods))
+        if n % 256 < 2 and acc.expired():
             return
 
 
 def replay(case, acc):
     cfg, start, prods = G.from_case(case)
+    L = int(case.get("L", 3))
     if case.get("input") is not None:
         inputs = [tuple(tuple(t) for t in case["input"])]
-        L = max(3, len(inputs[0]))
+        L = max(L, len(inputs[0]))
     else:
-        L = 3
         inputs = G.all_inputs(cfg, L)
     feats, nt, out, n_cmp = check_grammar(cfg, start, prods, L, inputs, acc, modes=(case["smart"],))
     acc.case(nontrivial=nt, features=feats, outcome=out, traces=n_cmp)
